@@ -18,7 +18,7 @@ class C30(Prop):
     rule = (
         "cases = 2-3 workflow instances of one two-step workflow class with num_concurrent_runs in {1..4, None}, and 2-10 runs started "
         "at generated virtual instants on generated instances, each with generated step durations, optionally failing in its first or "
-        "second step, optionally cancelled at a generated instant (before it got a slot, while running, after it ended). Oracle over the "
+        "second step, optionally cancelled at a generated instant (before it got a slot, while running, after it ended), gracefully (cancel_run) or hard (handler.cancel(): the run's task is cancelled). Oracle over the "
         "recorded run intervals [first step entered, result available], evaluated strictly between event instants: (a) the number of "
         "runs of one instance that are executing never exceeds its limit; (b) work conservation: while a started, uncancelled run of an "
         "instance is still waiting to execute, that instance is at its limit (so a run never waits because of ANOTHER instance, and no "
@@ -51,6 +51,8 @@ class C30(Prop):
                         "d2": draw(st.sampled_from([0, 0, 1, 2, 4])),
                         "fail": draw(st.sampled_from([None, None, None, None, 1, 2])),
                         "cancel_at": draw(st.sampled_from([None, None, None, None, 0, 0.5, 1.5, 2.5, 4.5, 7.5])),
+                        # graceful cancel_run() (a tick through the control loop) or the hard handler.cancel() (the run's task is cancelled)
+                        "hard": draw(st.sampled_from([False, False, True])),
                     }
                 )
             return {"limits": limits, "runs": runs, "ties": draw(st.lists(st.integers(0, 7), max_size=8))}
@@ -119,7 +121,14 @@ class C30(Prop):
                         await asyncio.sleep(spec["cancel_at"] - VClock.t)
                     if not h._result_task.done():
                         log[k]["cancelled_at"] = VClock.t
-                        await h.cancel_run(timeout=1e9)
+                        if spec.get("hard"):
+                            import warnings
+
+                            with warnings.catch_warnings():
+                                warnings.simplefilter("ignore")
+                                h.cancel()
+                        else:
+                            await h.cancel_run(timeout=1e9)
 
             tasks = [asyncio.create_task(one(k, s)) for k, s in enumerate(runs)]
             await asyncio.wait(tasks, timeout=horizon)
@@ -205,6 +214,8 @@ class C30(Prop):
             r.classes.append("some_run_waited")
         if any(lg["cancelled_at"] is not None and (lg["enter"] is None or lg["enter"] > lg["cancelled_at"]) for lg in log):
             r.classes.append("cancelled_while_waiting_for_slot")
+        if any(lg["cancelled_at"] is not None and runs[k].get("hard") and (lg["enter"] is None or lg["enter"] > lg["cancelled_at"]) for k, lg in enumerate(log)):
+            r.classes.append("hard_cancelled_while_waiting_for_slot")
         if any(lg["cancelled_at"] is not None and lg["enter"] is not None and lg["enter"] <= lg["cancelled_at"] for lg in log):
             r.classes.append("cancelled_while_running")
         if any(lg["outcome"] == "GenError" for lg in log):
